@@ -45,7 +45,8 @@ type lifePlan struct {
 	KeepHijacked    bool       `json:"keep_hijacked_conns"`
 	CloseOnShutdown bool       `json:"close_on_shutdown"`
 	ShutdownMs      int        `json:"shutdown_ms"`
-	SecondRound     bool       `json:"serve_and_shutdown_again,omitempty"` // C15: the same Server is served and shut down a second time
+	SecondRound     bool       `json:"serve_and_shutdown_again,omitempty"`
+	TrickleCheckMs  int        `json:"trickle_check_ms,omitempty"` // C13: a burst, then a long trickle of short connections; worker census taken at this instant // C15: the same Server is served and shut down a second time
 	Conns           []lifeConn `json:"conns"`
 }
 
@@ -89,6 +90,8 @@ type lifeRun struct {
 	hijackCur int32
 	shutdownStart, shutdownRet time.Duration
 	round2Started, round2Done int32
+	trickleSeen    bool
+	trickleWorkers int
 	shutdownErr error
 	doneOpenDuringShutdown int
 	workersPeak int
@@ -155,6 +158,21 @@ func genLifePlan(e *Env) *lifePlan {
 		}
 		p.Conns = append(p.Conns, c)
 	}
+	if e.Prop == "C13" && p.ShutdownMs < 0 && e.Chance(20) {
+		// burst, then a trickle that keeps one worker busy for much longer than the idle
+		// limit: the workers the burst left idle must be retired during the trickle
+		idle := 200
+		p.MaxIdleWorkerMs, p.Concurrency, p.MaxPerIP, p.Mode = idle, 3, 0, "serve"
+		p.Conns = nil
+		for i := 0; i < 3; i++ {
+			p.Conns = append(p.Conns, lifeConn{IP: "10.1.0.1", StartMs: 0, EndClose: true, Acts: []lifeAct{{Kind: "req", HandlerMs: 20}}})
+		}
+		n := 24
+		for i := 0; i < n; i++ {
+			p.Conns = append(p.Conns, lifeConn{IP: "10.1.0.2", StartMs: 300 + i*idle/2, EndClose: true, Acts: []lifeAct{{Kind: "req"}}})
+		}
+		p.TrickleCheckMs = 300 + (n-1)*idle/2
+	}
 	if p.ShutdownMs >= 0 && e.Chance(40) {
 		// align the Shutdown/Stop instant with an event of one connection (its start, or the
 		// end of one of its handlers): events at the same simulated instant are interleaved
@@ -189,6 +207,9 @@ func (r *lifeRun) monitor() {
 	}
 	if c := r.s.GetCurrentConcurrency(); c > r.concPeak {
 		r.concPeak = c
+	}
+	if r.p.TrickleCheckMs > 0 && !r.trickleSeen && Now() >= 2*time.Second+ms(r.p.TrickleCheckMs) {
+		r.trickleSeen, r.trickleWorkers = true, simrt.CensusMatch("workerPool.getCh")
 	}
 }
 
@@ -812,6 +833,14 @@ func (r *lifeRun) judgeWorkers() {
 	}
 	if !r.judgeTerminal() {
 		return
+	}
+	if p.TrickleCheckMs > 0 && r.trickleSeen {
+		e.Ob(1)
+		e.Probe("trickle")
+		if r.trickleWorkers > 2 {
+			e.Violation("idle-retire/during-trickle", "%d worker tasks exist %v after a burst of 3 connections, although only one short connection at a time has been served since (MaxIdleWorkerDuration %v): idle workers are not retired while the pool is in use", r.trickleWorkers, ms(p.TrickleCheckMs), ms(p.MaxIdleWorkerMs))
+			return
+		}
 	}
 	for i := range p.Conns {
 		rec := r.recs[r.addrOf(i)]
